@@ -24,20 +24,26 @@ open N2k.Spec
 /-- the shipped per-definition decoders are exactly the compiled database entries -/
 theorem C01_code_is_compiled :
     Gen.decFns = (Gen.dbChunks.map (fun c => (groupsOf c).flatMap compileGroupDec)).flatten := by
-  sorry
+  simp only [Gen.decFns, Gen.decChunks, Gen.dbChunks, List.map_cons, List.map_nil,
+    Tables.dec00_eq_compiled, Tables.dec01_eq_compiled, Tables.dec02_eq_compiled, Tables.dec03_eq_compiled,
+    Tables.dec04_eq_compiled, Tables.dec05_eq_compiled, Tables.dec06_eq_compiled, Tables.dec07_eq_compiled,
+    Tables.dec08_eq_compiled, Tables.dec09_eq_compiled, Tables.dec10_eq_compiled, Tables.dec11_eq_compiled,
+    Tables.dec12_eq_compiled, Tables.dec13_eq_compiled, Tables.dec14_eq_compiled, Tables.dec15_eq_compiled]
 
 /-- a returned message names its definition: PGN, id, description, transmission interval -/
 theorem C01_header (env : Env) (g : List PgnDef) (p : PgnDef) (data : Nat) (m : Msg)
     (h : runDec env (compileDec g p) data = .ok m) :
     m.pgn = p.pgn ∧ m.id = p.id ∧ m.desc = p.desc ∧ m.ttlMs = p.interval := by
-  sorry
+  obtain ⟨fs, -, rfl⟩ := Dec01.runDec_ok h
+  exact ⟨rfl, rfl, rfl, rfl⟩
 
 /-- one field per database field, in order, with the database's id (`reserved_<offset>` for reserved
 fields), name, description, unit, physical quantity, type and primary-key flag -/
 theorem C01_fields_meta (env : Env) (g : List PgnDef) (p : PgnDef) (data : Nat) (m : Msg)
     (h : runDec env (compileDec g p) data = .ok m) :
     m.fields.map (·.fmeta) = p.fields.map fieldMeta := by
-  sorry
+  obtain ⟨fs, hrun, rfl⟩ := Dec01.runDec_ok h
+  simpa [Dec01.decStmts_map_fmeta] using Dec01.runStmts_meta env data _ 0 [] fs hrun
 
 /-- field orders are 1,2,3,… (a fact about the database, checked on the regenerated tables) -/
 def ordersOk (p : PgnDef) : Bool := (p.fields.mapIdx (fun i f => f.order == i + 1)).all id
@@ -53,7 +59,9 @@ theorem C01_field_value (env : Env) (g : List PgnDef) (p : PgnDef) (data : Nat) 
     (hind : f.ftype ≠ "INDIRECT_LOOKUP") :
     ∃ fld off' done, m.fields[i]? = some fld ∧ done.length = i ∧
       runOp env data o done (decOp f) = .ok (fld.value, fld.raw, off') := by
-  sorry
+  obtain ⟨fld, v, off', done, h1, h2, h3, h4⟩ :=
+    Dec01.compiled_field h (Dec01.orders_of_all p.fields hord) hf ho
+  exact ⟨fld, off', done, h1, h2, by rw [h4 hind]; exact h3⟩
 
 /-- the raw value of an INDIRECT_LOOKUP field is the integer at its position -/
 theorem C01_indirect_raw (env : Env) (g : List PgnDef) (p : PgnDef) (data : Nat) (m : Msg)
@@ -61,11 +69,11 @@ theorem C01_indirect_raw (env : Env) (g : List PgnDef) (p : PgnDef) (data : Nat)
     (i : Nat) (f : FieldDef) (hf : p.fields[i]? = some f) (o l : Nat) (ho : f.bitOffset = some o)
     (hl : f.bitLength = some l) (hind : f.ftype = "INDIRECT_LOOKUP") :
     ∃ fld, m.fields[i]? = some fld ∧ fld.raw = .int (Straight.decode_int data o l) := by
-  sorry
+  exact Dec01.compiled_indirect_raw h (Dec01.orders_of_all p.fields hord) hf ho hl hind
 
 /-- width of the ops that read a fixed number of bits -/
 def fixedWidth : DecOp → Option Nat
-  | .number l _ _ _ _ _ => some l
+  | .number l _ _ _ _ _ _ => some l
   | .lookup l _ => some l
   | .bitLookup l _ => some l
   | .rawInt l => some l
@@ -81,29 +89,31 @@ theorem C01_locality (env : Env) (op : DecOp) (l : Nat) (hl : fixedWidth op = so
     (data data' o : Nat) (done done' : List Field)
     (hb : Straight.decode_int data o l = Straight.decode_int data' o l) :
     runOp env data o done op = runOp env data' o done' op := by
-  sorry
+  cases op <;> simp only [fixedWidth, Option.some.injEq, reduceCtorEq] at hl <;> subst hl <;>
+    simp only [runOp, decodeNumber, decodeStringFix, decodeFloat, hb]
 
 /-- `decode_int` is the bit field: `(data / 2^o) % 2^l` -/
 theorem C01_decode_int_bits (data o l : Nat) : Straight.decode_int data o l = data / 2 ^ o % 2 ^ l := by
-  sorry
+  exact Dec01.decode_int_bits data o l
 
 /-- **"Not available" is reported as no value**, and only it: `decode_number` yields `None` exactly
 when the (sign-extended) integer is the field's not-available code — all ones for unsigned fields
 of 2+ bits, the largest positive value for signed fields of 4+ bits; 1-bit fields have none. -/
-theorem C01_na (data off len : Nat) (signed : Bool) (res mn mx : Lit) :
-    decodeNumber data off len signed res mn mx = .ok none ↔
+theorem C01_na (data off len : Nat) (signed : Bool) (res mn mx ofs : Lit) :
+    decodeNumber data off len signed res mn mx ofs = .ok none ↔
       naCode len signed =
         some (if signed then signExtend (Straight.decode_int data off len) len
               else ((Straight.decode_int data off len : Nat) : Int)) := by
-  sorry
+  exact Dec01.decodeNumber_na data off len signed res mn mx ofs
 
-/-- an integer-resolution NUMBER inside its database range decodes (no error) to exactly raw × resolution -/
-theorem C01_number_total_int (data off len : Nat) (signed : Bool) (r mn mx : Int)
+/-- an integer-resolution NUMBER inside its database range decodes (no error) to exactly
+raw × resolution + offset -/
+theorem C01_number_total_int (data off len : Nat) (signed : Bool) (r mn mx o : Int)
     (z : Int) (hz : z = (if signed then signExtend (Straight.decode_int data off len) len
                           else ((Straight.decode_int data off len : Nat) : Int)))
-    (hna : naCode len signed ≠ some z) (h1 : mn ≤ z * r) (h2 : z * r ≤ mx) :
-    decodeNumber data off len signed (Lit.ofInt r) (Lit.ofInt mn) (Lit.ofInt mx) = .ok (some (.int (z * r))) := by
-  sorry
+    (hna : naCode len signed ≠ some z) (h1 : mn ≤ z * r + o) (h2 : z * r + o ≤ mx) :
+    decodeNumber data off len signed (Lit.ofInt r) (Lit.ofInt mn) (Lit.ofInt mx) (Lit.ofInt o) = .ok (some (.int (z * r + o))) := by
+  exact Dec01.decodeNumber_total_int data off len signed r mn mx o z hz hna h1 h2
 
 -- non-vacuity: PGN 127508 (battery status) is in the database, and its compiled decoder decodes
 example : ∃ p ∈ Gen.dbPgns, p.pgn = 127508 ∧ ordersOk p = true ∧
